@@ -518,7 +518,7 @@ func loop_AVX2() {
 	ADDQ(Imm(128), R8)
 	MOVQ(R8, Mem{Base: DX}.Offset(0))
 	CMPQ(R8, Imm(128))
-	JGE(LabelRef("noinc"))
+	JCC(LabelRef("noinc"))
 	INCQ(R9)
 	MOVQ(R9, Mem{Base: DX}.Offset(8))
 }
@@ -959,7 +959,7 @@ func loop_AVX() {
 	Label("loop")
 	ADDQ(Imm(128), R8)
 	CMPQ(R8, Imm(128))
-	JGE(LabelRef("noinc"))
+	JCC(LabelRef("noinc"))
 	INCQ(R9)
 }
 
